@@ -211,15 +211,24 @@ class ModBuilder:
     def connect_all(self):
         rewire = self.design.get("rewire")
         names = [i["name"] for i in self.ms["insts"]]
+        # connections the designer makes first and replaces afterwards (they are not part of the design's meaning)
+        for iname, port, e in self.ms.get("pre_conns", []):
+            self.insts[iname].connect(port, self.expr(e))
         for k, i in enumerate(self.ms["insts"]):
             inst = self.insts[i["name"]]
             for port, e in i["conns"].items():
-                if rewire and len(names) > 1:
+                self._site = getattr(self, "_site", 0) + 1
+                if rewire and len(names) > 1 and (rewire != "pref-one" or (e[0] == "sig" and self._site % 3 == 1)):
                     # the designer first ties the port to something else (a reference to a neighbour's port, a throw-away signal),
                     # then to what the design says: only the last connection counts
                     other = self.insts[names[(k + 1) % len(names)]]
                     oports = list(self._ports_of(other))
-                    if rewire == "pref" and oports:
+                    # preferably a neighbour's port that has no connection of its own (it lives in an implicit, reference-only net)
+                    implicit = [(j["name"], q) for j in self.ms["insts"] if j is not i and j.get("kind", "single") == "single"
+                                for q in self._ports_of(self.insts[j["name"]]) if q not in j["conns"]]
+                    if rewire in ("pref", "pref-one") and implicit:
+                        inst.connect(port, getattr(self.insts[implicit[0][0]], implicit[0][1]))
+                    elif rewire in ("pref", "pref-one") and oports:
                         inst.connect(port, getattr(other, oports[0]))
                     else:
                         inst.connect(port, h.Signal(width=3))
@@ -271,10 +280,14 @@ class ModBuilder:
         return m
 
 
-def build(design: dict, uid: Optional[str] = None) -> Built:
-    """Build every module of the design (children first).  Returns the Built record; .top is the top module."""
+def build(design: dict, uid: Optional[str] = None, reuse: Optional[Built] = None) -> Built:
+    """Build every module of the design (children first).  Returns the Built record; .top is the top module.
+    reuse: an earlier Built whose Bundle DEFINITIONS (and their roles) are used again instead of being defined anew."""
     built = Built()
     built.uid = uid if uid is not None else f"_{next(_counter)}"
+    if reuse is not None:
+        built.bundles.update(reuse.bundles)
+        built.roles.update(reuse.roles)
     for ms in design["modules"]:
         mb = ModBuilder(design, ms, built)
         mb.declare()
